@@ -6,7 +6,11 @@ pub mod akd_core {
 }
 pub enum VrfError { PublicKey(String), SigningKey(String), Verification(String) }
 pub enum VerificationError { MembershipProof(String), NonMembershipProof(String), LookupProof(String), HistoryProof(String), Vrf(VrfError) }
-pub trait Configuration {}
+pub trait Configuration {
+    spec fn spec_root(v: AzksValue) -> Digest;
+    fn compute_root_hash_from_val(root_val: &AzksValue) -> (r: Digest)
+        ensures r == Self::spec_root(*root_val);
+}
 pub trait Database {}
 #[verifier::external_body]
 #[verifier::reject_recursive_types(S)]
@@ -46,3 +50,24 @@ impl From<Vec<AzksElement>> for AzksElementSet {
 }
 // permission to (re)write the root record: granted by the caller only for a non-empty batch
 pub uninterp spec fn root_write_permitted() -> bool;
+
+// ---- epoch hash (C13: an answer never labels a root hash with the wrong epoch)
+pub trait VRFKeyStorage {}
+// MODEL of akd/src/directory.rs::Directory: only the field the verified function touches (the VRF storage, the parallelism
+// configuration and the cache lock play no role in get_epoch_hash)
+#[verifier::reject_recursive_types(S)]
+#[verifier::reject_recursive_types(TC)]
+#[verifier::reject_recursive_types(V)]
+pub struct Directory<TC, S: Database, V> {
+    pub storage: StorageManager<S>,
+    pub vrf: V,
+    pub tc: core::marker::PhantomData<TC>,
+}
+// what a read of the epoch record returns during this call
+pub uninterp spec fn azks_read<S: Database>(storage: &StorageManager<S>) -> Result<Azks, AkdError>;
+impl<TC: Configuration, S: Database + 'static, V: VRFKeyStorage> Directory<TC, S, V> {
+    #[verifier::external_body]
+    pub(crate) async fn retrieve_azks(&self) -> (r: Result<Azks, AkdError>)
+        ensures r == azks_read(&self.storage)
+    { unimplemented!() }
+}
